@@ -286,8 +286,36 @@ int main(int argc, char** argv) {
   u2c.chunk = 1 << 20;
   u2c.rule = "every ordered pair \\uH\\uL, H and L in 0..ffff (2^32 literals, exhaustive) directly through internal::parseStringInplace";
 
+  // SL: LONG literals (beyond any fixed-size scratch buffer or unrolling factor): one atom after p and before q plain bytes
+  static std::vector<std::pair<uint32_t, uint32_t>> SLp;
+  if (SLp.empty()) {
+    std::vector<uint32_t> Ts;
+    for (uint32_t t = 250; t <= 262; t++) Ts.push_back(t);
+    for (uint32_t t = 440; t <= 560; t++) Ts.push_back(t);
+    for (uint32_t b : {1024u, 4096u, 65536u})
+      for (int d = -2; d <= 2; d++) Ts.push_back(b + d);
+    for (uint32_t T : Ts)
+      for (uint32_t pp : {0u, 1u, 31u, T / 2, T - 33, T - 1, T}) SLp.push_back({pp, T - pp});
+  }
+  vr::Family sl;
+  sl.name = "SL_long_literals";
+  sl.count = (uint64_t)SLp.size() * NA;
+  sl.group = "SL";
+  sl.chunk = 16;
+  sl.rule = "each of the 24 atoms inside a literal of T plain bytes, T in 250..262, every T in 440..560, and +-2 around 1024, 4096, 65536, after 0, 1, 31, T/2, T-33, T-1, T of them; root, array value, object key and on-demand key";
+
   vr::CheckFn check = [&](const vr::Family& f, uint64_t idx, vr::Ctx& ctx) {
     const std::string& nm = f.name;
+    if (nm[0] == 'S' && nm[1] == 'L') {
+      const std::string& atom = A[idx % NA];
+      auto pq = SLp[idx / NA];
+      std::string body(pq.first, 'q');
+      body += atom;
+      body.append(pq.second, 'r');
+      if (ctx.want_sample) ctx.sample("p=" + std::to_string(pq.first) + " atom " + vr::hex(atom) + " q=" + std::to_string(pq.second));
+      check_body(body, ctx);
+      return;
+    }
     if (nm[0] == 'S' && nm[1] == '1' && nm[2] == 'r') {
       unsigned ti = (unsigned)(idx % 3);
       idx /= 3;
@@ -428,7 +456,7 @@ int main(int argc, char** argv) {
     check_pair_direct((uint32_t)(idx >> 16), (uint32_t)(idx & 0xffff), ctx, false);
   };
 
-  std::vector<vr::Family> fams = {s1, s1r, s3, u1, u3, p2, u2a, u2b};
+  std::vector<vr::Family> fams = {s1, s1r, s3, u1, u3, p2, sl, u2a, u2b};
   if (!quick && !asan) fams.push_back(u2c);
   if (args.replay) {
     std::vector<vr::Family> all = {s1, s1r, s3, u1, u3, p2, u2a, u2b, u2c};
